@@ -326,6 +326,12 @@ def merge_pairing(ctx, rid, only=None):
             if st["s"] != "assign":
                 continue
             f = gfield_of_place(st["lhs"])
+            if f is None and st["lhs"]["p"] and st["lhs"]["p"][0] == "*":
+                # `*target = value` where target is a `&mut global.<field>` handed to an (inlined) helper
+                tsl = origins(rc, {"l": st["lhs"]["l"], "p": []}, stop_adts=(G,))
+                tf_ = {x for a, x in tsl.fields if a == G}
+                if len(tf_) == 1:
+                    f = next(iter(tf_))
             if f is None:
                 continue
             rv = st["rv"]
